@@ -450,7 +450,17 @@ func (n *Nodis) ZMin(key string) *zset.Item {
 func (n *Nodis) ZUnion(keys []string, weights []float64, aggregate string) []*zset.Item {
 	var v []*zset.Item
 	_ = n.exec(func(tx *Tx) error {
-		tx.lockKeys(nil, keys...)
+		v = n.zUnion(tx, keys, weights, aggregate)
+		return nil
+	})
+	return v
+}
+
+// zUnion computes the result within a transaction that sees all operands at one instant
+func (n *Nodis) zUnion(tx *Tx, keys []string, weights []float64, aggregate string) []*zset.Item {
+	var v []*zset.Item
+	tx.lockKeys(nil, keys...)
+	func() {
 		var items = make(map[string]float64)
 		for i, key := range keys {
 			m := tx.readKey(key)
@@ -487,8 +497,7 @@ func (n *Nodis) ZUnion(keys []string, weights []float64, aggregate string) []*zs
 		for member, score := range items {
 			v = append(v, &zset.Item{Member: member, Score: score})
 		}
-		return nil
-	})
+	}()
 	return v
 }
 
@@ -496,10 +505,11 @@ func (n *Nodis) ZUnion(keys []string, weights []float64, aggregate string) []*zs
 func (n *Nodis) ZUnionStore(destination string, keys []string, weights []float64, aggregate string) int64 {
 	var v int64
 	_ = n.exec(func(tx *Tx) error {
-		// the union is computed before the destination is locked and created: a destination
-		// that is also an operand no longer deadlocks, and an operand of the wrong type fails
-		// the command before the destination exists
-		items := n.ZUnion(keys, weights, aggregate)
+		// operands and destination are locked together, then the union is computed before the
+		// destination is created: an operand of the wrong type fails the command before the
+		// destination exists
+		tx.lockKeys([]string{destination}, keys...)
+		items := n.zUnion(tx, keys, weights, aggregate)
 		meta := tx.writeKey(destination, n.newZSet)
 		if !meta.isOk() {
 			return nil
@@ -532,12 +542,22 @@ func (n *Nodis) ZUnionStore(destination string, keys []string, weights []float64
 func (n *Nodis) ZInter(keys []string, weights []float64, aggregate string) []*zset.Item {
 	var v []*zset.Item
 	_ = n.exec(func(tx *Tx) error {
-		tx.lockKeys(nil, keys...)
+		v = n.zInter(tx, keys, weights, aggregate)
+		return nil
+	})
+	return v
+}
+
+// zInter computes the result within a transaction that sees all operands at one instant
+func (n *Nodis) zInter(tx *Tx, keys []string, weights []float64, aggregate string) []*zset.Item {
+	var v []*zset.Item
+	tx.lockKeys(nil, keys...)
+	func() {
 		var items = make(map[string]float64)
 		for i, key := range keys {
 			m := tx.readKey(key)
 			if !m.isOk() {
-				return nil
+				return
 			}
 			var weight float64 = 1
 			if i < len(weights) {
@@ -581,8 +601,7 @@ func (n *Nodis) ZInter(keys []string, weights []float64, aggregate string) []*zs
 		for member, score := range items {
 			v = append(v, &zset.Item{Member: member, Score: score})
 		}
-		return nil
-	})
+	}()
 	return v
 }
 
@@ -590,7 +609,8 @@ func (n *Nodis) ZInter(keys []string, weights []float64, aggregate string) []*zs
 func (n *Nodis) ZInterStore(destination string, keys []string, weights []float64, aggregate string) int64 {
 	var v int64
 	_ = n.exec(func(tx *Tx) error {
-		items := n.ZInter(keys, weights, aggregate)
+		tx.lockKeys([]string{destination}, keys...)
+		items := n.zInter(tx, keys, weights, aggregate)
 		meta := tx.writeKey(destination, n.newZSet)
 		if !meta.isOk() {
 			return nil
